@@ -526,6 +526,15 @@ static void c19_after_keyed(int t, unsigned c, int was_settled)
         if (lw > m->work_l) m->work_l = lw;
         m->work_sum += wk; m->work_ops++;
         {
+            /* ... and no single operation does work proportional to the whole table: its own chains, the contents of at most three
+             * buckets, and the already-clean buckets the sweep may step over - at most three for every keyed operation so far */
+            uint64_t one = 2 * (WORK_C0 + WORK_C1 * (uint64_t)(lw + 1)) + WORK_C2 * (3 * m->work_ops + 3);
+            if (getenv("SIM_WORK_DEBUG")) { char nm[64]; unsigned pct = (unsigned)(wk * 100 / one); snprintf(nm, sizeof nm, "work_one_op_pct_%s", pct < 25 ? "lt25" : pct < 50 ? "lt50" : pct < 70 ? "lt70" : pct < 85 ? "lt85" : pct <= 100 ? "le100" : "gt100"); probe_dyn(nm); }
+            if (wk > one)
+                VIOLP("C19", "per_op_blocks", "one keyed operation (number %llu since the resize) executed %llu basic blocks of library code; chains of at most %u elements and %llu buckets that can already be clean account for %llu",
+                      (unsigned long long)m->work_ops, (unsigned long long)wk, lw, (unsigned long long)(3 * m->work_ops + 3), (unsigned long long)one);
+        }
+        {
             uint64_t allow = m->work_ops * (WORK_C0 + WORK_C1 * (uint64_t)(m->work_l + 1)) + WORK_C2 * m->work_n;
             if (getenv("SIM_WORK_DEBUG") && m->work_n >= 64) {
                 char nm[64]; uint64_t own = m->work_ops * (WORK_C0 + WORK_C1 * (uint64_t)(m->work_l + 1));
@@ -1217,9 +1226,91 @@ static void huge_chains(const plan_t *p)
     g_run.nontrivial = 1;
 }
 
+/* tables that run on the library's own functions, handed over BY NAME (cstl_hash_div, cstl_hash_mul: an implementation may treat
+ * its own functions specially), with keys from the whole of size_t: small ones, keys that differ only above bit 31, keys near
+ * SIZE_MAX. Lookups, erases and inserts fall into the middle of every rehash; the oracle is a plain set of keys. */
+static void builtin_tables(const plan_t *p)
+{
+    struct simheap_cfg hc = { RP_MOVE, (uint64_t)1 << 24, (unsigned char)p->cfg[CF_JUNK] };
+    static struct cstl_hash ht; static void *ret;
+    enum { NB = 160 };
+    static struct xelem pool[NB]; static size_t key[NB]; static unsigned char in[NB];
+    prng_t r; int i, round, n = 0; size_t live = 0;
+    simheap_reset(&hc, p->cfg[CF_JUNK]);
+    mode_g = p->mode; g_hnd = 0;
+    g_cur_prop = "C03"; g_cur_ctx = "built-in-by-name"; g_run.step = 0; g_run.opkind = O_RESIZE; g_run.steps++;
+    prng_seed(&r, p->cfg[CF_TABSEED]);
+    memset(&ht, (int)(unsigned char)p->cfg[CF_JUNK], sizeof ht);
+    cstl_hash_init(&ht, offsetof(struct xelem, hn));
+    memset(in, 0, sizeof in);
+    for (i = 0; i < NB; i++) {
+        uint64_t k = prng_below(&r, 40);
+        switch (prng_below(&r, 5)) {
+        case 0: break;
+        case 1: k |= (uint64_t)(1 + prng_below(&r, 7)) << 32; break;                    /* differs from a small key only above bit 31 */
+        case 2: k = UINT64_MAX - k; break;
+        case 3: k = (k << 32) | prng_below(&r, 3); break;
+        default: k = prng_next(&r); break;
+        }
+        key[i] = (size_t)k;
+        pool[i].magic = EMAGIC; pool[i].tail = ~EMAGIC; pool[i].id = i; pool[i].nk = 0; pool[i].table = -1;
+    }
+    for (round = 0; round < 6; round++) {
+        size_t m = 1 + (size_t)prng_below(&r, round == 0 ? 12 : 90);
+        cstl_hash_func_t *f = prng_chance(&r, 1, 2) ? cstl_hash_div : cstl_hash_mul;
+        int steps = 4 + (int)prng_below(&r, 60), q;
+        if (round > 0 && prng_chance(&r, 1, 4)) f = NULL;      /* keep the function in use */
+        g_run.opkind = O_RESIZE;
+        TRY(cstl_hash_resize(&ht, m, f));
+        if (g_aborted) VIOL("abort", "resize aborted");
+        for (q = 0; q < steps; q++) {
+            int e = (int)prng_below(&r, NB), j, dup = 0;
+            switch (prng_below(&r, 4)) {
+            case 0: case 1:
+                if (in[e]) break;
+                for (j = 0; j < NB; j++) if (in[j] && key[j] == key[e]) dup = 1;
+                if (dup) break;        /* one element per key keeps the oracle a set */
+                g_run.opkind = O_INSERT;
+                TRY(cstl_hash_insert(&ht, key[e], &pool[e])); in[e] = 1; live++; n++;
+                break;
+            case 2:
+                if (!in[e]) break;
+                g_run.opkind = O_ERASE;
+                TRY(cstl_hash_erase(&ht, &pool[e])); in[e] = 0; live--;
+                break;
+            default: break;
+            }
+            /* a lookup of some key, present or not, after every step */
+            e = (int)prng_below(&r, NB);
+            g_run.opkind = O_FIND;
+            TRY(ret = cstl_hash_find(&ht, key[e], NULL, NULL));
+            { void *want = NULL; for (j = 0; j < NB; j++) if (in[j] && key[j] == key[e]) want = &pool[j];
+              if (ret != want) VIOL(want ? "lost_element" : "find_absent", "table on a built-in function passed by name: find of key %#zx returned %s (the key is %s)", key[e], ret ? "an element" : "NULL", want ? "held" : "not held"); }
+            if (cstl_hash_size(&ht) != live) VIOL("size", "size is %zu, %zu elements are held", cstl_hash_size(&ht), live);
+        }
+        if (prng_chance(&r, 1, 3)) { g_run.opkind = O_REHASH; TRY(cstl_hash_rehash(&ht)); }
+    }
+    for (i = 0; i < NB; i++) if (in[i]) {
+        g_run.opkind = O_FIND;
+        TRY(ret = cstl_hash_find(&ht, key[i], NULL, NULL));
+        if (ret != &pool[i]) VIOL("lost_element", "table on a built-in function passed by name: the element with key %#zx is not found at the end", key[i]);
+    }
+    g_cur_prop = "C04"; g_run.opkind = O_FOREACH_CONST; hc_seen = 0;
+    TRY((void)cstl_hash_foreach_const(&ht, hc_visit, NULL));
+    if (hc_seen != live) VIOLP("C04", "enum_missed", "foreach_const visited %llu of %zu elements", (unsigned long long)hc_seen, live);
+    g_run.opkind = O_CLEAR; hc_cleared = 0;
+    TRY(cstl_hash_clear(&ht, hc_clear));
+    if (hc_cleared != live) VIOLP("C04", "clear_missed", "clear handed over %llu of %zu elements", (unsigned long long)hc_cleared, live);
+    simheap_audit("C03", "built-in-by-name");
+    PROBE("builtin_function_by_name"); if (n > 20) PROBE("builtin_function_by_name_20_inserts");
+    EVT("builtin_tables", n, live, 0);
+    g_run.nontrivial = n > 4;
+}
+
 static void x_exec(const plan_t *p)
 {
     if (p->mode == 103) { huge_chains(p); return; }
+    if (p->mode == 104) { builtin_tables(p); return; }
     if (p->mode == 16) faultenum(p, x_once); else x_once(p);
 }
 
@@ -1257,6 +1348,10 @@ static void x_gen(prng_t *r, int mode, plan_t *p)
         for (n = 2 + (int)prng_below(r, 20); n > 0; n--) { o = plan_add(p, O_INSERT); o->a[0] = 0; o->a[1] = prng_next(r) >> 16; o->a[2] = prng_below(r, 6); o->a[3] = prng_next(r) >> 8; }
         o = plan_add(p, O_RESIZE); o->a[0] = 0; o->a[1] = 1 + prng_below(r, 32); o->a[2] = 1 + prng_below(r, NFN - 1); o->a[3] = 0;
         o->a[5] = 1 + prng_below(r, 3); o->a[6] = prng_below(r, 7);
+        return;
+    }
+    if (mode == 104) {
+        p->cfg[CF_JUNK] = 1 + prng_below(r, 254); p->cfg[CF_TABSEED] = prng_next(r); p->cfg[CF_NT] = 1;
         return;
     }
     if (mode == 103) {
